@@ -205,10 +205,12 @@ var participleYqRules = []*participleYqRule{
 	{"AssignRelative", `\|=[c]*`, assignOpToken(true), 0},
 	{"Assign", `=[c]*`, assignOpToken(false), 0},
 
-	{`whitespace`, `[ \t\n]+`, nil, 0},
+	{`whitespace`, `[ \t\r\n]+`, nil, 0},
 
 	{"WrappedPathElement", `\."[^ "]+"\??`, pathToken(true), 0},
-	{"PathElement", `\.[^ ;\}\{\:\[\],\|\.\[\(\)=\n!]+\??`, pathToken(false), 0},
+	// a tab or a carriage return ends a path element like a blank or a line feed does (`.a<TAB>| .b`, expression files
+	// with Windows line endings)
+	{"PathElement", `\.[^ \t\r;\}\{\:\[\],\|\.\[\(\)=\n!]+\??`, pathToken(false), 0},
 	{"Pipe", `\|`, opToken(pipeOpType), 0},
 	{"Self", `\.`, opToken(selfReferenceOpType), 0},
 
